@@ -115,7 +115,8 @@ def claims(tier):
     step = 12
     for lo in range(0, n, step):
         cl.append(Claim("alias[%d-%d]" % (lo, min(lo + step, n) - 1), c06_alias, params={"lo": lo, "hi": min(lo + step, n), "K": 0 if q else 1}, pre=[lambda i, root: P["lo"] <= i < P["hi"] and spelled(root, P["K"])], timeout=600 if q else 2400, bounds="alias cases %d..%d of (shorthand containing m/M) x (min, mi, -, maj, ma); root = letter + {#,b}^<=%d" % (lo, min(lo + step, n) - 1, 0 if q else 1)))
-    cl.append(Claim("slash", c06_slash, params={"K": 1}, pre=[lambda root, bass, i: spelled(root, 0 if q else 1) and spelled(bass, 1) and 0 <= i < len(SLASH_POOL)], timeout=900 if q else 3000, bounds="root = letter%s; bass = letter + {#,b}^<=1; %d chord types incl. those containing '/'" % ("" if q else " + {#,b}^<=1", len(SLASH_POOL))))
+    for si in range(len(SLASH_POOL)):
+        cl.append(Claim("slash[%s]" % SLASH_POOL[si], c06_slash, params={"K": 0 if q else 1, "si": si}, group="c06_slash", pre=[lambda root, bass, i: i == P["si"] and spelled(root, P["K"]) and spelled(bass, 1)], timeout=900 if q else 3000, bounds="root = letter%s; bass = letter + {#,b}^<=1 (both symbolic); chord type %r" % ("" if q else " + {#,b}^<=1", SLASH_POOL[si])))
     cl.append(Claim("polychord", c06_poly, pre=[lambda i, j: 0 <= i < len(POLY_POOL) and 0 <= j < len(POLY_POOL)], timeout=600, bounds="X|Y for X, Y in a pool of %d chords (realised)" % len(POLY_POOL)))
     cl.append(Claim("nc_and_lists", c06_nc_and_lists, pre=[lambda i, j: 0 <= i < 3 and 0 <= j < len(POLY_POOL)], timeout=300, bounds="NC, N.C., list input"))
     cl.append(Claim("bad_suffix", c06_bad_suffix, pre=[lambda root, suf: spelled(root, 1) and 1 <= len(suf) <= (2 if q else 3)], timeout=600 if q else 2400, bounds="root = letter + {#,b}^<=1; suffix: every unicode string of length 1..%d without the alias/slash characters that is not a table key" % (2 if q else 3)))
